@@ -18,7 +18,7 @@ CHECKS = {
     },
     "C13": {
         "text": ("Lean theorems (entry level, unbounded): without options the metadata a copied entry ends up with is the source's, with chown/utime/mode the "
-                 "requested owner/time/permission bits, symlinks excepted (no_options_preserves, chown_option, utime_option, mode_option_*); under every option combination name, link target, size and device numbers are the source's, an absent option leaves its field as the source has it, and every source xattr is carried while a destination xattr survives exactly when the source has none of that name (options_keep_identity_fields, absent_option_preserves, xattrs_source_wins). Correspondence: "
+                 "requested owner/time/permission bits, symlinks excepted (no_options_preserves, chown_option, utime_option, mode_option_*); under every option combination name, link target, size and device numbers are the source's, an absent option leaves its field as the source has it, and every source xattr is carried while a destination xattr survives exactly when the source has none of that name (options_keep_identity_fields, absent_option_preserves, xattrs_source_wins); the octal mode option sets exactly the permission/special bits and leaves every type bit as the source has it (mode_option_sets_exactly_perm_bits). Correspondence: "
                  "copy.Copy in a chroot'ed child on materialised trees (all types, hard-link groups, suid/sgid/sticky, xattrs incl. file capabilities, ns "
                  "mtimes) into an empty root: whole tree / sub-directory / single file / single symlink / follow-links x {chown, octal mode, utime} vs the "
                  "executable tree-level reference (landing rule, children-then-metadata, created parents, notifier calls)."),
